@@ -46,6 +46,11 @@ def _dyn_norm(ty):
     return ty.replace(" + 'static", "").strip()
 
 
+def _is_type_param(ty):
+    ty = ty.lstrip("&").replace("mut ", "").strip()
+    return bool(ty) and "::" not in ty and "<" not in ty and ty[0].isupper() and ty not in ("Self",) and len(ty) <= 12 and not ty.startswith("dyn")
+
+
 class CallGraph:
     def __init__(self, db, callback_traits=DECODE_TRAITS + ENCODE_TRAITS):
         self.db = db
@@ -85,6 +90,10 @@ class CallGraph:
             if r and not t.get("virt") and r not in db.fns:
                 # resolved to an external impl: nothing in workspace (callbacks below)
                 pass
+            elif t["tr"] not in db.traits and _is_type_param(t.get("trself", "")):
+                # external trait method on a bare type parameter inside a generic body:
+                # the instantiating call sites carry the callback edges instead
+                pass
             else:
                 for mid, _im in ims:
                     if mid in db.fns:
@@ -113,11 +122,19 @@ class CallGraph:
         f = t.get("f")
         if not f:
             return out
-        r = t.get("r") or f
-        if r in self.db.fns and not t.get("virt"):
-            return out
+        last = f.split("::")[-1]
+        enc_only = last.startswith(("try_serialize", "serialize", "to_value", "to_string", "to_vec", "to_writer", "ser_vec", "to_bytes", "write_", "put_ser")) or last in ("to_string_pretty", "format")
+        dec_only = last.startswith(("deserialize", "from_value", "from_str", "from_slice", "from_reader", "from_bytes", "next_element", "next_value", "next_key", "parse", "get_ser", "read_"))
+        std_callee = f.startswith(("core::", "alloc::", "std::"))
+        STD_OK = ("core::str::traits::FromStr", "core::convert::TryFrom", "core::convert::From", "core::default::Default", "core::fmt::Display")
         for adt in t.get("gadts", []):
             for tr, mids in self.adt_impls.get(adt, []):
+                if std_callee and tr not in STD_OK:
+                    continue
+                if enc_only and tr in DECODE_TRAITS and tr not in ENCODE_TRAITS:
+                    continue
+                if dec_only and tr in ENCODE_TRAITS and tr not in DECODE_TRAITS:
+                    continue
                 if tr in self.callback_traits:
                     for m in mids:
                         if m in self.db.fns:
